@@ -50,7 +50,9 @@ def compact(events):
 HOSTS = [("fe80::1", True), ("fe80::1", False), ("fe80::2", False), ("2001:db8::9", False)]
 _P = lambda pfx, valid, pref, onlink=True, auto=True: {"k": "prefix", "pfx": pfx, "valid": valid, "pref": pref, "onlink": onlink, "auto": auto}
 PFX = [_P("2001:db8::/64", 86400, 14400), _P("2001:db8::/64", 100, 0), _P("2001:db8:1::/64", -1, -1, False, True),
-       _P("2001:db8:2::/56", 0, 0, True, False), _P("fd00::/48", 2592000, 604800)]
+       _P("2001:db8:2::/56", 0, 0, True, False), _P("fd00::/48", 2592000, 604800),
+       # the same address under other lengths: a series is identified by the whole CIDR, not by the address
+       _P("2001:db8::/48", 7200, 3600), _P("2001:db8::/32", 3000, 2000, False, False), _P("2001:db8::/128", 50, 40)]
 OTHER = [{"k": "mtu", "mtu": 1500}, {"k": "rdnss", "life": 600, "servers": ["2001:db8::53"]}, {"k": "lla", "addr": "02:00:00:00:00:09"},
          {"k": "route", "pfx": "2001:db8:f::/48", "pref": "high", "life": 1800}, {"k": "pref64", "pfx": "64:ff9b::/96", "life": 1800}]
 
@@ -84,7 +86,7 @@ def c18(pid, tier, replay):
         pool = []
         for host, zone in HOSTS[:3]:
             for life in (0, 1800):
-                for opts in ([], [PFX[0]], [PFX[1], PFX[2]]):
+                for opts in ([], [PFX[0]], [PFX[1], PFX[2]], [PFX[5]], [PFX[6], PFX[0]]):
                     pool.append({"op": "msg", "kind": "ra", "src": host, "zone": zone, "wire": True,
                                  "spec": {"hl": 64, "m": life == 0, "o": True, "life": life, "reach": 0, "retrans": 0, "opts": opts}})
             pool.append({"op": "msg", "kind": "rs", "src": host, "zone": zone})
